@@ -116,6 +116,19 @@ CLAIMED = {
          'determinism of the real translation is sampled, not proved; GIL atomicity of attribute assignment is assumed. One genuine defect found '
          'by this check and fixed (af4502b: stale entry cell across workbooks).',
     technique='Coq proof (state-machine invariant; schedule-indexed invariant for the two-thread system) + trace correspondence', ref='6/C09'),
+ 'C07': dict(
+    text='Unbounded Coq theorems: repr(text) is, for EVERY byte string, exactly one Python string literal denoting the text, and whatever follows '
+         'it in the module is read after it (confinement); text constants and sheet titles are emitted through repr; for a cell ="<text>" with ANY '
+         'text, whatever the lexer (regenerated regexes, Gallina regex engine) makes of it, the emitted code is one string literal or the template '
+         'call self._regexp(<one string literal>) (after fixes F13 2426c45 and F14 c8db29f; the verbatim splice F14 removed is kept as a kernel-computed '
+         'regression witness). Correspondence: hostile strings (quotes, backslash, newline, # { } % ( ) ? * ~, Python call syntax with a harmless canary '
+         'planted in builtins) in constant cells, plain and wildcard literals, criterion positions and sheet titles; the code emitted for the cell is '
+         'compared with the model in Coq, the generated module is parsed with ast (no workbook identifier may be executable), loaded and evaluated '
+         '(canary untouched, value compared with the model: payload, or _regexp of the payload).',
+    note='ASCII. Criterion positions (text spliced by LambdaTokenTranslator) are covered by the oracle and by the regenerated criterion regex of C12, '
+         'not by a C07 theorem. CPython\'s reading of a short string literal is modelled (Base/PyRepr.v) and validated by loading every generated '
+         'module. Known finding: wildcard_literal_evaluates_to_regex. One genuine defect found by this check and fixed (c8db29f).',
+    technique='Coq proof (induction over strings; case analysis of the emitter over an abstract lexer result) + vm_compute correspondence + ast/canary oracle', ref='6/C07'),
  'C20': dict(
     text='Translator-based proof: on every run both runtime copies (the template of context.py rendered through str.format, and '
          'AbstractExcelInPython) are re-parsed with ast, stripped of annotations/docstrings and regenerated as generic syntax trees '
